@@ -14,6 +14,7 @@
   `Grouping.group_spec`), and the Fiat–Shamir challenges avoid the exceptional values.
 -/
 import GoIpa.Tie.ProtocolMp
+import GoIpa.Tie.Grouping
 import GoIpa.Props.C01Complete
 namespace GoIpa.C01
 open GoIpa GoIpa.Mp GoIpa.Grouping GoIpa.Tie.Protocol GoIpa.Tie.ProtocolMp
@@ -61,5 +62,35 @@ theorem multiproof_complete_translated (cfg : IpaCfg K G) (hc : CfgOk cfg) (hN :
     simp only at hcheck ⊢
     rw [hcheck, hv]
     rfl
+
+/-- **The same with the translated `groupPolynomialsByEvaluationPoint` in place of the parameter**:
+for every value `w ≥ 1` of `runtime.NumCPU()` and every order `order` (a permutation of the
+workers) in which the goroutines' tables arrive on the channel, the translated prover — now
+including its fan-out / fan-in aggregation, `Tie.Grouping.groupPolynomials_eq` — returns a proof
+that the translated verifier accepts. What remains a parameter: `MultiScalar`/`Commit` (C09/C05),
+`BatchNormalize` (C19), `computeBVector` (C04). -/
+theorem multiproof_complete_translated_grouping (cfg : IpaCfg K G) (hc : CfgOk cfg) (hN : cfg.N = 256) (hr : cfg.rounds = 8)
+    (hrefl : ∀ p : G, enc.eqG p p = true)
+    (ms : List G → List K → Option G) (hms : MsOk ms)
+    (normalize : List G → Option (List G)) (commitFn : List K → G)
+    (tr : Tr) (fs : List (List K)) (zs : List Nat) (hon : Honest cfg fs zs)
+    (w : Nat) (hw : 1 ≤ w) (order : List Nat) (hperm : order.Perm (List.range w))
+    (hnorm : normalize (fs.map (msm cfg.srs)) = some (fs.map (msm cfg.srs))) (hcommit : ∀ v, commitFn v = msm cfg.srs v) :
+    let Cs := fs.map (msm cfg.srs)
+    let zsI := zs.map (fun (z : Nat) => (z : Int))
+    let groupFn := Gen.Loops.groupPolynomialsByEvaluationPoint (K := K) (w : Int) (fun k => ((order.getD k.toNat 0 : Nat) : Int))
+    let s := proverState enc cfg tr Cs fs zs w order
+    (∀ i, i < fs.length → s.t ≠ ((zs.getD i 0 : Nat) : K)) →
+    (∀ x ∈ C04.honestChallenges enc cfg s.tr (s.E - s.D) (List.zipWith (· - ·) s.h s.g) s.t, x ≠ 0) →
+    ∃ (p : (List G × List G × K) × G) (tr' : Tr),
+      Gen.Loops.createMultiProof enc (bVector cfg) ms normalize commitFn groupFn cfg.weights.bary cfg.weights.invDom
+        tr cfg.Q cfg.srs (cfg.rounds : Int) Cs fs zsI = some (p, tr') ∧
+      Gen.Loops.checkMultiProof enc (bVector cfg) ms tr cfg.Q cfg.srs (cfg.rounds : Int)
+        p.1.1 p.1.2.1 p.1.2.2 p.2 Cs (honestYs fs zs) zsI = some (true, tr') := by
+  intro Cs zsI groupFn s ht hch
+  have hgood : Good 256 fs zs (List.range fs.length) := by rw [← hN]; exact hon.good
+  have hlen : order.length = w := by rw [hperm.length_eq, List.length_range]
+  exact multiproof_complete_translated enc cfg hc hN hr hrefl ms hms normalize commitFn groupFn tr fs zs hon w hw order hperm
+    hnorm hcommit (fun pows => Tie.Grouping.groupPolynomials_eq fs pows zs hgood w hw order hlen) ht hch
 
 end GoIpa.C01
